@@ -57,8 +57,18 @@ def exec_histories(dh, wd, hs, env=None, jobs=None):
     chunks = [hs[i::jobs] for i in range(jobs)]
     chunks = [c for c in chunks if c]
     crashed, err = False, ""
+    # batch entries are spread over workers by GOMAXPROCS: vary it so that extents of more than one entry occur
+    envs = []
+    for k, ch in enumerate(chunks):
+        e = dict(env or {})
+        gmp = e.get("GOMAXPROCS") or [None, "1", "2", "3"][k % 4]
+        if gmp:
+            e["GOMAXPROCS"] = gmp
+        for h in ch:
+            h["env"] = e
+        envs.append(e)
     with ThreadPoolExecutor(max_workers=jobs) as ex:
-        for c, e in ex.map(lambda ch: _exec_chunk(dh, wd, ch, env), chunks):
+        for c, e in ex.map(lambda ke: _exec_chunk(dh, wd, ke[0], ke[1]), zip(chunks, envs)):
             if c:
                 crashed, err = True, e
     return crashed, err
@@ -74,7 +84,7 @@ def run_one(dh, wd, cfg, ops, env=None):
 def shrink_history(dh, wd, h, predicate, env=None, max_trials=60):
     """ddmin over the op list keeping config; predicate(ops, impl, model, crashed) -> still failing?"""
     def fails(ops):
-        impl, model, crashed, _ = run_one(dh, wd, h["cfg"], ops, env)
+        impl, model, crashed, _ = run_one(dh, wd, h["cfg"], ops, env if env is not None else h.get("env"))
         return predicate(ops, impl, model, crashed)
     return ddmin(list(h["ops"]), fails, max_trials=max_trials)
 
